@@ -54,13 +54,16 @@ pub struct MSite {
 
 // ---------------------------------------------------------------- recorders
 
+/// `.1` = the most bytes one `write` call accepts (0 = everything): `io::Write::write` may
+/// consume any non-empty prefix, the caller has to come back with the rest.
 #[derive(Clone, Default)]
-struct RecMake(Arc<Mutex<Vec<Vec<u8>>>>);
-struct RecW(Arc<Mutex<Vec<Vec<u8>>>>);
+struct RecMake(Arc<Mutex<Vec<Vec<u8>>>>, Arc<std::sync::atomic::AtomicUsize>);
+struct RecW(Arc<Mutex<Vec<Vec<u8>>>>, usize);
 impl io::Write for RecW {
     fn write(&mut self, b: &[u8]) -> io::Result<usize> {
-        self.0.lock().unwrap().push(b.to_vec());
-        Ok(b.len())
+        let n = if self.1 == 0 { b.len() } else { b.len().min(self.1) };
+        self.0.lock().unwrap().push(b[..n].to_vec());
+        Ok(n)
     }
     fn flush(&mut self) -> io::Result<()> {
         Ok(())
@@ -69,7 +72,7 @@ impl io::Write for RecW {
 impl<'a> MakeWriter<'a> for RecMake {
     type Writer = RecW;
     fn make_writer(&'a self) -> RecW {
-        RecW(self.0.clone())
+        RecW(self.0.clone(), self.1.load(std::sync::atomic::Ordering::Relaxed))
     }
 }
 impl RecMake {
